@@ -187,7 +187,7 @@ def ft_definition_check(cfg, impls=('numpy', 'pyfftw')):
 # bounded stand-in: wavelet decomposition followed by reconstruction on every basis vector (linear for pad_const = 0), adjoint identity for
 # orthogonal wavelets with periodic extension
 
-WAVELETS = ('haar', 'db2', 'db3', 'sym2', 'sym4', 'coif1', 'bior1.3', 'bior2.2', 'rbio1.3', 'dmey')
+WAVELETS = ('haar', 'db2', 'db3', 'sym2', 'sym4', 'coif1', 'bior1.3', 'bior2.2', 'rbio1.3', 'db4')      # not 'dmey': PyWavelets' discrete Meyer filter is itself only approximately reconstructing (1e-3)
 WAV_PADS = ('constant', 'periodic', 'symmetric', 'order0', 'order1', 'pywt_periodic', 'reflect', 'antireflect', 'antisymmetric')
 
 
